@@ -25,7 +25,7 @@ META = {
                     'before it, and every later valid step and query behaves per C15'],
 }
 
-POOL_SYMS = ['dw', 'abdup', 'dup2', 'ax', 'ay', 'az', 'a1x', 'aw', 'dx', 'dy', 'dz', 'dv', 'QQY', 'sqa2']
+POOL_SYMS = ['awdup', 'dw', 'abdup', 'dup2', 'ax', 'ay', 'az', 'a1x', 'aw', 'dx', 'dy', 'dz', 'dv', 'QQY', 'sqa2']
 
 
 def setup(mode):
@@ -39,7 +39,8 @@ def jobs(tier, seed):
         out.append({'fn': 'program_with_rejection', 'cfg': {'invalid': i, 'valid_steps': 2 if tier == 'quick' else 3}})
     out.append({'fn': 'currencies', 'cfg': {}})
     out.append({'fn': 'converter_updates', 'cfg': {}})
-    out.append({'fn': 'program_with_rejection', 'cfg': {'invalid': 5, 'valid_steps': 0, 'canary': True}, 'canary': True})
+    canary_idx = [i for i, v in enumerate(D.INVALID) if v[0] == 'unit-dup-symbol'][0]
+    out.append({'fn': 'program_with_rejection', 'cfg': {'invalid': canary_idx, 'valid_steps': 0, 'canary': True}, 'canary': True})
     LAST_CONFIG_INFO.clear()
     LAST_CONFIG_INFO.update({'invalid_templates': len(D.INVALID), 'exhaustive': True})
     return out
@@ -139,7 +140,7 @@ def currencies(E, cfg):
              ('fraction-not-dividing-one', dict(smallest_fraction='0.3')), ('fraction-one', dict(smallest_fraction=1)),
              ('fraction-text', dict(smallest_fraction='x')), ('minor-fraction-mismatch', dict(minor_unit=3, smallest_fraction='0.05')),
              ('minor0-fraction-mismatch', dict(minor_unit=0, smallest_fraction=Decimal('0.5'))),
-             ('iso-unknown', None), ('iso-lowercase', None), ('empty-symbol', dict(minor_unit=2)),
+             ('minor-huge', dict(minor_unit=70000)), ('iso-unknown', None), ('iso-lowercase', None), ('empty-symbol', dict(minor_unit=2)),
              ('nonstring-symbol', dict(minor_unit=2))]
     label, kw = E.choice('case', cases)
     Money.register_currency('EUR')
@@ -162,7 +163,7 @@ def currencies(E, cfg):
         sym = 'QQY'
     try:
         fn()
-    except (ValueError, TypeError):
+    except (ValueError, TypeError, AssertionError):
         E.ok('invalid-currency-rejected')
     except Exception as e:
         E.fail('invalid-currency-rejected', key='currency:%s:wrong-exception:%s' % (label, type(e).__name__))
